@@ -40,7 +40,10 @@ ASSUMPTIONS = [
     "write-side stream faults are out of scope of the statement (recorded only)",
 ]
 
-ALPHABET = ["a", "b", " ", "\t", "\n", "\n", "\r\n", "\r\n", "\r", "\v", "\f", " ", " ", "x y", "  ", "\n\n", "\r\n\r\n", "é"]
+ALPHABET = ["a", "b", " ", "\t", "\n", "\n", "\r\n", "\r\n", "\r", "\v", "\f", " ", "\u2028", "x y", "  ", "\n\n", "\r\n\r\n", "é"]
+# characters str.splitlines() (and universal-newline readers) treat as line boundaries but that are NOT terminators here:
+# inside a line they are content (whitespace for Trim when trailing), and they never end a line for the limiter
+EXOTIC = ["\x1c", "\x1d", "\x1e", "\x85", "\u2028", "\u2029", "\v", "\f", "\r"]
 SMALL = ["a", " ", "\n", "\r"]
 PROC_LISTS = [[]] + [[["trim"]]] + [[["limit", n]] for n in range(4)] + [[["limit", n], ["trim"]] for n in range(3)] + [[["trim"], ["limit", n]] for n in range(3)]
 
@@ -60,7 +63,7 @@ def case_timeout_s(tier: str) -> float:
 def directed_cases(seed: int, tier: str) -> typing.List[dict]:
     out = []
     # canonical: every cut of "a \r\n\r\nb" under every processor list
-    out.append({"label": "directed-all-cuts-crlf", "mode": "allcuts", "texts": ["a \r\n\r\nb", "a  \r\nb\r\nlast", "\r\n\r\n\r\nx\r\n", " \n\t\n\n\nend", "x\r", "\r", "\n", ""]})
+    out.append({"label": "directed-all-cuts-crlf", "mode": "allcuts", "texts": ["a \r\n\r\nb", "a  \r\nb\r\nlast", "\r\n\r\n\r\nx\r\n", " \n\t\n\n\nend", "x\r", "\r", "\n", "", "a\u2028b \n\x85\n\n\x1cq", "a \x85\n\u2029\n\f\n\nz\x1e"]})
     # exhaustive sub-batch, split by first character over workers
     max_len = 6 if tier == "quick" else 8
     for first in [""] + [a + b for a in SMALL for b in SMALL]:
@@ -68,7 +71,7 @@ def directed_cases(seed: int, tier: str) -> typing.List[dict]:
         out.append({"label": "exhaustive-%r" % first, "mode": "exhaustive", "first": first, "max_len": max_len})
     for k, (f, w, pl) in enumerate([(0, 2, [["limit", 1]]), (1, 9, [["limit", 1]]), (0, 3, [["trim"], ["limit", 0]]), (1, 5, [["limit", 2], ["trim"]]), (0, 11, [["limit", 1]])]):
         out.append({"label": "directed-retry-%d" % k, "mode": "retry", "dsdl_seed": [seed, PROP, "directed", 0], "fault": {"file": f, "write": w}, "procs": pl, "templates": "blanky"})
-    out.append({"label": "directed-copy-header", "mode": "copy", "texts": ["a  \r\nb\r\nlast", "a \nb\n", "x", "", "\n", "a\r\n", "l1\nl2  ", "\r\n\r\n\r\n\r\nq"]})
+    out.append({"label": "directed-copy-header", "mode": "copy", "texts": ["a  \r\nb\r\nlast", "a \nb\n", "x", "", "\n", "a\r\n", "l1\nl2  ", "\r\n\r\n\r\n\r\nq", "a\u2028b \n\x85\nc\x1cd\n", "p\x0bq\x0c\r\nr\x1d\x1es"]})
     for li, (lang, tpl, flags) in enumerate([("c", None, {}), ("c", "crlf", {}), ("py", None, {}), ("cpp", "blanky", {"pp_max_empty": 1}), ("py", "crlf", {}), ("c", "blanky", {}), ("py", "blanky", {"pp_trim": True}), ("cpp", "blanky", {"pp_max_empty": 2, "pp_trim": True}), ("c", "blanky", {"pp_max_empty": 3})]):
         out.append({"label": "directed-system-%s-%s-%d" % (lang, tpl, li), "mode": "system", "dsdl_seed": [seed, PROP, "directed", li % 2], "lang": lang, "templates": tpl, "flags": flags})
     return out
@@ -230,6 +233,8 @@ def check_copy(text: str, procs: typing.List[list], workdir: str) -> typing.Opti
 
 def _rand_text(r: Rng) -> str:
     n = r.weighted([(r.between(0, 4), 3), (r.between(3, 12), 5), (r.between(10, 40), 2)])
+    if r.chance(1, 5):
+        return "".join(r.choice(EXOTIC) if r.chance(1, 4) else r.choice(ALPHABET) for _ in range(n))
     return "".join(r.choice(ALPHABET) for _ in range(n))
 
 
